@@ -3,6 +3,7 @@ package main
 import (
 	"fmt"
 	"go/types"
+	"sort"
 	"strings"
 
 	"golang.org/x/tools/go/ssa"
@@ -256,6 +257,7 @@ func c04r2(c *Ctx, id string) {
 						}
 					})
 					c.Check(!skipped, id, "range-install@"+fname(cs.Fn), st.Pos(), "every path through the function installs the freshly derived range", "a path through "+fname(cs.Fn)+" returns without installing the freshly derived range (a stale range stays in effect)")
+					rangeBeforeStreams(c, id, cs.Fn, st)
 				}
 				continue
 			}
@@ -283,6 +285,7 @@ func c04r2(c *Ctx, id string) {
 					}
 				})
 				c.Check(!skipped, id, "range-install@"+fname(fn), st.Pos(), "every path through the function installs the freshly derived range", "a path through "+fname(fn)+" returns without installing the freshly derived range (a stale range stays in effect)")
+				rangeBeforeStreams(c, id, fn, st)
 			}
 			if ok1 && okEnd && okSrc {
 				c.OK(id, construct, a.Pos(), "Start ← %s, End ← %s", s, e)
@@ -380,4 +383,86 @@ func returnsAlloc(fn *ssa.Function, a *ssa.Alloc) bool {
 		}
 	})
 	return ok
+}
+
+// rangeBeforeStreams: the new range is in force before the first stream of the new assignment is requested — the
+// store of the range dominates every call in the function that (through static calls, closures and goroutines) reaches
+// a stream request. Installed only afterwards, the guard still holds the previous assignment while events of the new
+// one arrive and acknowledgements of vBuckets handed away are still accepted.
+func rangeBeforeStreams(c *Ctx, id string, fn *ssa.Function, st ssa.Instruction) {
+	rangeBeforeStreamsAt(c, id, fn, st, 0)
+}
+
+func rangeBeforeStreamsAt(c *Ctx, id string, fn *ssa.Function, st ssa.Instruction, lift int) {
+	memo := map[*ssa.Function]bool{}
+	var opens func(f *ssa.Function, depth int) bool
+	opens = func(f *ssa.Function, depth int) bool {
+		if f == nil || f.Blocks == nil || depth > 5 {
+			return false
+		}
+		if v, ok := memo[f]; ok {
+			return v
+		}
+		memo[f] = false
+		found := false
+		allInstrs(f, func(in ssa.Instruction) {
+			ci, ok := in.(ssa.CallInstruction)
+			if !ok || found {
+				return
+			}
+			cc := ci.Common()
+			if cc.IsInvoke() && cc.Method.Name() == "OpenStream" {
+				found = true
+				return
+			}
+			if sf := cc.StaticCallee(); sf != nil && c.W.inModule(sf) && opens(sf, depth+1) {
+				found = true
+			}
+			for _, a := range cc.Args {
+				if mc, isMC := a.(*ssa.MakeClosure); isMC {
+					if cf, isF := mc.Fn.(*ssa.Function); isF && opens(cf, depth+1) {
+						found = true
+					}
+				}
+			}
+		})
+		for _, af := range f.AnonFuncs {
+			if !found && opens(af, depth+1) {
+				found = true
+			}
+		}
+		memo[f] = found
+		return found
+	}
+	n := 0
+	var late []string
+	allInstrs(fn, func(in ssa.Instruction) {
+		ci, ok := in.(ssa.CallInstruction)
+		if !ok {
+			return
+		}
+		sf := ci.Common().StaticCallee()
+		if sf == nil || !c.W.inModule(sf) || !opens(sf, 0) {
+			return
+		}
+		n++
+		if !dominatesInstr(st, in) {
+			late = append(late, calleeName(ci.Common())+" @"+c.W.pos(in.Pos()))
+		}
+	})
+	sort.Strings(late)
+	if n == 0 {
+		// the range is installed by a helper: judged where the helper is called
+		sites := c.W.callersOf(fn)
+		if lift >= 2 || len(sites) == 0 {
+			c.Undecided(id, "range-before-streams@"+fname(fn), st.Pos(), "no call that opens streams found in the function that installs the range, nor in its callers")
+			return
+		}
+		for _, cs := range sites {
+			rangeBeforeStreamsAt(c, id, cs.Fn, cs.Call, lift+1)
+		}
+		return
+	}
+	c.Check(len(late) == 0, id, "range-before-streams@"+fname(fn), st.Pos(), fmt.Sprintf("the range is installed before each of the %d calls that request streams", n),
+		"streams are requested before the new range is in force (the guard still holds the previous assignment meanwhile): "+strings.Join(late, "; "))
 }
